@@ -72,6 +72,11 @@ def run(tier):
     rep.add_tlc("Solvers (VI machine, closed-form optimal values on deterministic gadgets)", res)
     if res.invariant_violated:
         rep.violation("spec:Solvers-VI " + ",".join(res.violated), {"tlc": res.out[-3000:]})
+    res = C.run_tlc("PIModel", "PIModelDet.cfg", extra=["-seed", str(C.seed() + 1)], coverage=True)
+    C.tlc_must_be_clean(res, "PIModel det")
+    rep.add_tlc("PIModel (policy iteration, closed-form optimal values on deterministic gadgets)", res)
+    if res.invariant_violated:
+        rep.violation("spec:PIModel " + ",".join(res.violated), {"tlc": res.out[-3000:]})
     vi, pi = jobs_for(tier, rng)
     j2, traces = solverlib.run_jobs(vi + pi)
     a = [(j, t) for j, t in zip(j2, traces) if j["kind"] != "PI"]
